@@ -214,6 +214,16 @@ class Static:
 # interpreter
 
 
+def nstart(n):
+    k = n[0]
+    return n[2] if k == "t" else n[3] if k == "n" else n[4] if k == "a" else nstart(n[1])
+
+
+def nend(n):
+    k = n[0]
+    return n[3] if k == "t" else n[4] if k == "n" else n[5] if k == "a" else nend(n[1])
+
+
 class Obj:
     __slots__ = ("cls", "attrs", "start", "end", "parent")
 
@@ -436,22 +446,19 @@ class Interp:
                 return None
             if not r[1]:
                 return r[0], []
-            return r[0], [("a", attr, "plain", r[1], r[1][0][2], r[1][-1][3])]
+            return r[0], [("a", attr, "plain", r[1], nstart(r[1][0]), nend(r[1][-1]))]
         if op == "?=":
             r = self.ev(rhs, pos, st, inc)
             if r is None or not r[1]:
                 return (pos, []) if r is None else (r[0], [])
-            return r[0], [("a", attr, "optional", r[1], r[1][0][2], r[1][-1][3])]
+            return r[0], [("a", attr, "optional", r[1], nstart(r[1][0]), nend(r[1][-1]))]
         r = self.rep(rhs, sep, eol, op == "+=", pos, st, inc, mark_sep=True)
         if r is None:
             return None
         if not r[1]:
             return r[0], []
         kids = r[1]
-        real = [x for x in kids if x[0] != "s"]
-        first = kids[0][1] if kids[0][0] == "s" else kids[0]
-        last = kids[-1][1] if kids[-1][0] == "s" else kids[-1]
-        return r[0], [("a", attr, "list", kids, first[2], last[3])]
+        return r[0], [("a", attr, "list", kids, nstart(kids[0]), nend(kids[-1]))]
 
     def rule(self, name, pos, st, inc):
         if name in BASE_RE:
@@ -464,7 +471,7 @@ class Interp:
             for alt in BASE_COMPOSITE[name]:
                 r = self.rule(alt, pos, st, inc)
                 if r is not None:
-                    return r[0], [("n", name, r[1], r[1][0][2], r[1][-1][3])]
+                    return r[0], [("n", name, r[1], nstart(r[1][0]), nend(r[1][-1]))]
             return None
         _, params, body = self.rules[name]
         if "skipws" in params:
@@ -476,7 +483,7 @@ class Interp:
             return None
         if not r[1]:
             return r[0], []
-        return r[0], [("n", name, r[1], r[1][0][2], r[1][-1][3])]
+        return r[0], [("n", name, r[1], nstart(r[1][0]), nend(r[1][-1]))]
 
     # -- entry -------------------------------------------------------------------------------
     def parse(self, text):
